@@ -104,3 +104,21 @@ def abs_near(points, widths, lo=-math.inf, hi=math.inf):
 
 # sizes just beyond typical chunk / block / buffer lengths (a tail that a block loop can drop)
 CHUNK_SIZES = [4097, 8193, 65537, 2**17 + 3001, 2**20 + 4097]
+
+
+def block_edge_sizes(tier, cap=None):
+    """Array lengths ON and just beyond typical block lengths (powers of two, powers of ten, whole multiples): the
+    places where a block loop drops, doubles or misplaces its tail. Quick: a spread up to 2^22 (+tail); thorough:
+    every power of two from 2^12 to 2^24, 10^4..10^7, with and without a tail, and whole multiples."""
+    quick = [4096, 8193, 65536, 65537, 2**20, 2**20 + 4097, 10**6, 3 * 2**20, 2**22, 2**22 + 4099]
+    if tier == "quick":
+        sizes = quick
+    else:
+        sizes = list(quick)
+        for k in range(12, 25):
+            sizes += [2**k, 2**k + 1, 2**k + 4097]
+        sizes += [10**4, 10**4 + 3, 10**5, 10**5 + 3, 10**6 + 3, 10**7, 10**7 + 3, 3 * 2**22, 2 * 2**22, 5 * 2**20 + 11]
+        sizes = sorted(set(sizes))
+    if cap is not None:
+        sizes = [n for n in sizes if n <= cap]
+    return sizes
